@@ -124,7 +124,7 @@ impl Prop for C06 {
     }
     fn plan(&self, tier: Tier) -> Plan {
         match tier {
-            Tier::Quick => Plan { cases: 1_500_000, tape_len: 170 },
+            Tier::Quick => Plan { cases: 3_000_000, tape_len: 170 },
             Tier::Thorough => Plan { cases: 40_000_000, tape_len: 240 },
         }
     }
